@@ -1198,7 +1198,8 @@ fn run_static(c: &Case, tc: &TestCase, buf: &mut String) {
             let outs = row.expected.iter().map(|r| format!("{}:{}", nm(&r.signal.name), expval_s(r.value))).collect::<Vec<_>>().join(" ");
             format!("SROW {} | {} | {}", row.line, inputs_s(&row.inputs), outs)
         };
-        let mode = c.seed % 5;
+        // (not the seed alone: the static twins of a family are every n-th test, which would tie the mode to the family)
+        let mode = ((c.seed / 3) as usize + c.src.len() + c.id.len()) % 5;
         let _ = verif_hooks::take_rng_log();
         let res = catch_unwind(AssertUnwindSafe(|| {
             let Ok(mut it) = tc.try_iter_static() else { return Err("constructor failed".to_string()) };
